@@ -209,7 +209,13 @@ def main():
     payload = json.load(sys.stdin)
     out = []
     for case in payload['cases']:
-        out.append(run_case(case))
+        try:
+            out.append(run_case(case))
+        except BaseException as e:  # noqa  (the oracle itself tripped over what the implementation returned)
+            import traceback
+            out.append({'code': 98, 'u': None, 'b': None,
+                        'fails': [{'clause': 'oracle-exception', 'site': case.get('kind'), 'who': 'worker',
+                                   'what': type(e).__name__, 'detail': traceback.format_exc()[-600:]}]})
     json.dump(out, sys.stdout)
 
 
